@@ -18,11 +18,11 @@ def big_field_chain(r, coin, sizes):
 
 def explore(ck):
     r = ck.rng; quick = ck.tier == 'quick'
-    ck.rule = ('chains written XOR-ed with keys of length 1..256 (8 most often; 64 always; lengths 3,5,6,7,12,13 always present; all-zero keys, xor.dat as an absolute / relative symbolic link to a key file of another name, keys with one zero byte, keys whose first 8 bytes are zero and the rest not; a blk file that is a symbolic link into a directory without xor.dat) and as plaintext; layouts with out-of-order blocks '
+    ck.rule = ('chains written XOR-ed with keys of length 1..256 (8 most often; 64 always; lengths 3,5,6,7,12,13 always present; all-zero keys, xor.dat as an absolute / relative symbolic link to a key file of another name, keys with one zero byte, keys whose first 8 bytes are zero and the rest not; keys with a zero prefix of 1/4/5/8 bytes on plain layouts whose files begin with the magic; a blk file that is a symbolic link into a directory without xor.dat) and as plaintext; layouts with out-of-order blocks '
                '(backward seeks), offsets not multiples of the key length, block starts at 32768*k +- {0,1,3}, single fields of 32768/40000/70000/131073 bytes followed by further fields, '
                'and a block beyond 4 GiB (sparse) with non-power-of-two key lengths; verbosity default/-v/-vv, --verify --start 1 on part of the cases; outputs of all five callbacks of the obfuscated directory = plaintext directory = model. '
                'Plus in-process: XorReader over seek_bufread::BufReader with arbitrary buffer sizes and short-read patterns vs the Coq mirror (Reader.v). '
-               'Non-trivial: key present and (>= 1 backward seek or a field >= 32 KiB or an offset >= 4 GiB); distinct by (layout kind, key length).')
+               'Non-trivial: key present and (>= 1 backward seek or a field >= 32 KiB or an offset >= 4 GiB or a zero prefix in the key); distinct by (layout kind, key length).')
     cases = []
     keylens = [1, 2, 3, 4, 5, 6, 7, 8, 64, 8, 9, 12, 13, 16, 31, 32, 63, 65, 100, 255, 256]
     n = 14 if quick else 90
@@ -59,6 +59,13 @@ def explore(ck):
             # blocks must not overlap: spots are far apart
             for h in range(5): c.add_record(blocks[h], h, *offs[h])
             c.meta['huge'] = True
+        if i < 4 or (not quick and i % 9 == 6):
+            # the zero prefix of a key is a dimension of its own: on a plain layout (every file begins with a block, i.e. with the magic at offset 0) a key whose first
+            # z bytes are zero leaves the first z bytes of every file as they are in plaintext - whatever the file starts with, the key applies to the whole file
+            z = [4, 8, 1, 5][i % 4]; kz = [8, 12, 8, 16][i % 4]
+            cz = Case('xz%d' % i, gen.ALL_COINS[(i * 3) % 8]); cz.xor = bytes(z) + bytes(x | 1 for x in gen.rb(r, kz - z))
+            cz.simple_layout(gen.random_chain(r, cz.coin, 5, max_tx=2)); cz.meta.update(kind='zero-prefix', keylen=kz, zero=False, zprefix=z, cbs=['csv', 'stats'], fixed=True); cases.append(cz)
+            pz = copy.copy(cz); pz.id = cz.id + 'p'; pz.xor = None; pz.meta = dict(cz.meta, plain=True); cases.append(pz)
         if kind == 'shuffled' and i % 8 == 4: c.linked_files = [0]     # blk00000.dat is an absolute symbolic link into a directory that holds no xor.dat: the key of the data directory applies
         if i % 5 == 2: c.xor_link = 'abs' if i % 2 else 'rel'          # xor.dat is a symbolic link to a key file with another name
         c.verbosity = i % 3                                             # default, -v, -vv (debug output about the key must not matter)
@@ -68,7 +75,7 @@ def explore(ck):
         p = copy.copy(c); p.id = c.id + 'p'; p.xor = None; p.meta = dict(c.meta, plain=True, fixed=True); c.meta['fixed'] = True; cases.append(p)
     def nontrivial(c, m):
         if c.xor is None: return None
-        if c.meta.get('backward') or c.meta.get('maxfield') or c.meta.get('huge'): return (c.meta['kind'], c.meta['keylen'], c.meta['zero'])
+        if c.meta.get('backward') or c.meta.get('maxfield') or c.meta.get('huge') or c.meta.get('zprefix'): return (c.meta['kind'], c.meta['keylen'], c.meta['zero'])
     models, results = core.compare_cases(ck, cases, lambda c: c.meta['cbs'], nontrivial=nontrivial,
                                          sample=lambda c, m: dict(case=c.id, coin=c.coin, kind=c.meta['kind'], key=(c.xor.hex() if c.xor is not None else None), model_status=m['status'],
                                                                   backward_seeks=c.meta.get('backward', 0)))
